@@ -39,7 +39,8 @@ def main():
             bound = CB * n * eps * max(na * nx, 1.0)
             if not (r <= bound): rep.violation('batched inverse of Tensor<%s,3,%d,%d> under %s: worst |A*X-I| = %.3g > %.3g' % (ty, n, n, cfg.name, r, bound), replay_of(10, n, ty, cfg, p), key='batched:%d:%s:%s' % (n, ty, cfg.name))
     n_model = linlib.model_compare(10, rows, rep)
-    rep.cov.update({'records_compared_exactly_with_the_coq_model': n_model, 'evaluations': n_eval, 'distinct_nontrivial': len(jobs),
+    n_closed = linlib.closed_compare(rows, rep)
+    rep.cov.update({'records_compared_exactly_with_the_coq_model': n_model, 'closed_form_records_compared_with_the_translated_kernels': n_closed, 'evaluations': n_eval, 'distinct_nontrivial': len(jobs),
                     'rule': 'six inversion strategies + lazy inv() + inverse of an expression + triangular (upper, unit lower) + batched inverse; sizes %s; float and double; matrix families: strictly diagonally dominant integers, their row permutations (pivoted strategies), unimodular integer matrices, Householder*diag*Householder with condition number 10 and 1000; residuals |A*X-I|, |X*A-I| (infinity norm, computed in long double) judged against 16*n*eps*cond(A); matrices outside the domain of the strategy are counted, not judged: unpivoted elimination growth of the (pre-pivoted) matrix > 64, or some leading block k x k (k = 1..n, so A itself too) with |inverse(A_k)|*|A| > 64' % (linlib.QUICK_SIZES if tr == 'quick' else linlib.THOROUGH_SIZES),
                     'configurations': sorted(set(c.name for _, _, c in jobs)), 'size_type_configuration_triples': ['%d/%s/%s' % (n, ty, c.name) for n, ty, c in jobs],
                     'distribution': dist, 'counted_not_judged_(growth)': skipped, 'worst_residual_over_n*eps*cond': {k: round(v, 3) for k, v in sorted(worst.items())}, 'traces_validated_against_impl': n_model})
